@@ -839,7 +839,8 @@ def run_program(env, prog, cfgs):
             if env.out_of_time():
                 env.notes.append("time cap reached")
                 return
-            check(env, prog, source, ld.module, cfg)
+            if not check(env, prog, source, ld.module, cfg):
+                continue
             for ft in co["feats"]:
                 for dim, val in (("kind", co["kind"]), ("ca", co["class_aliaser"]), ("struct", co["structure"]), ("dyn", cfg["dyn"]), ("mode", cfg["mode"])):
                     env.count(f"pc:{ft}|{dim}={val}")
@@ -877,13 +878,28 @@ def feasible(kind, structure, feats):
     return True
 
 
+def pair_universe():
+    """every pair of feature values that occurs in the enumerated pool (an item's pairs are the union over its naming features)"""
+    universe = set()
+    cfgs = G.configs_all()
+    for kind in G.KINDS:
+        for ca in G.CLASS_ALIASERS:
+            for structure in G.STRUCTURES:
+                for ft in G.POOL:
+                    if feasible(kind, structure, (ft,)):
+                        for c in cfgs:
+                            universe |= item_pairs((kind, ca, structure, (ft,)), c)
+    return universe
+
+
 def selection(env):
     """list of (idx, kind, ca, structure, feats, flags, [cfg...]) for this run (all shards compute the same list)"""
     cfgs = G.configs_all()
     items = [it for it in G.enumerate_programs() if feasible(it[1], it[3], it[4])]
-    if not env.quick():
-        return [(it, cfgs) for it in items]
     seed = env.seed
+    if not env.quick():
+        # seeded order: if the wall-clock guard stops a shard early, what was processed is an unbiased slice of the pool
+        return [(it, cfgs) for it in sorted(items, key=lambda it: h64("c11-ord", seed, it[0]))]
     chosen = []
     covered = set()
     for it in items:
@@ -896,12 +912,8 @@ def selection(env):
             for c in mine:
                 covered |= item_pairs((it[1], it[2], it[3], it[4]), c)
     # greedy completion: every pair of feature values must occur
+    missing = pair_universe() - covered
     order = sorted(items, key=lambda it: h64("c11-ord", seed, it[0]))
-    universe = set()
-    for it in items:
-        for c in cfgs:
-            universe |= item_pairs((it[1], it[2], it[3], it[4]), c)
-    missing = universe - covered
     for it in order:
         if not missing:
             break
@@ -927,9 +939,10 @@ def run(env):
             idx, kind, ca, structure, feats, flags = it
             prog = G.make_program(idx, kind, ca, structure, feats, list(flags), validators=(idx % 3 != 0))
             run_program(env, prog, cfgs)
+            env.count("enumerated_programs_done")
         # seeded bigger programs
         allc = G.configs_all()
-        for j in range(env.n(320, 4000)):
+        for j in range(env.n(320, 1600)):
             if env.out_of_time():
                 env.notes.append("time cap reached")
                 break
@@ -945,15 +958,12 @@ def finish_coverage(cov, counters, tier):
     for k in list(cov["counters"]):
         if k.startswith("pc:"):
             del cov["counters"][k]
-    cfgs = G.configs_all()
-    universe = set()
-    for it in G.enumerate_programs():
-        if feasible(it[1], it[3], it[4]):
-            for c in cfgs:
-                universe |= item_pairs((it[1], it[2], it[3], it[4]), c)
+    universe = pair_universe()
     missing = sorted(universe - set(pcs))
     cov["pairwise_feature_value_coverage"] = {"pairs_in_pool": len(universe), "pairs_exercised": len(universe & set(pcs)), "missing": missing[:20]}
-    cov["exhaustive"] = tier == "thorough" and not missing and cov.get("shards_stopped_by_time_cap", 0) == 0
+    total, done = counters.get("selected_programs_total", 0), counters.get("enumerated_programs_done", 0)
+    cov["enumerated_pool"] = {"programs_selected": total, "programs_processed": done, "configurations_per_program": len(G.configs_all()) if tier == "thorough" else "1-2"}
+    cov["exhaustive"] = tier == "thorough" and not missing and done == total and cov.get("shards_stopped_by_time_cap", 0) == 0
     cov["exhaustive_subspace"] = "the enumerated pool of vf.c11_gen.enumerate_programs x configs_all (thorough only)"
     cov["views_observed"] = {v: counters.get("view:" + v, 0) for v in VIEWS}
 
